@@ -33,6 +33,20 @@ class Frozen(Exception):
     raise AttributeError('cannot assign to field ' + repr(name))
 
 
+def blockfn(spec):
+  # a user context block written in converted code, ending in a one-branch return
+  with BLOCKS[spec['blk']]:
+    H.blk_probe(spec, 'in')
+    if spec['early']:
+      return 1
+  H.blk_probe(spec, 'after')      # after the block: the function's own status again
+  return 2
+
+
+def deep_fn(cb, k):
+  return cb(k)
+
+
 def gen_node(spec):
   H.gen_step(spec, 0)
   yield 1
@@ -128,7 +142,7 @@ def init_zygote(lane):
   mod = common.load_module('simuser_c16', path)
   Z['mod'] = mod
   Z['path'] = path
-  for name in ('enter', 'mid', 'leave', 'pre', 'post', 'caught', 'pick', 'call_child', 'lam_body', 'ours_now', 'gen_step', 'local_probe', 'hof_disabled', 'keep_local'):
+  for name in ('enter', 'mid', 'leave', 'pre', 'post', 'caught', 'pick', 'call_child', 'lam_body', 'ours_now', 'gen_step', 'local_probe', 'hof_disabled', 'keep_local', 'blk_probe'):
     setattr(getattr(Harness, name), 'autograph_info__', None)
   # discover injection points with a throw-away conversion in a pristine world
   feats = tuple(getattr(malt.experimental.Feature, f) for f in FEATSETS[-1])
@@ -156,7 +170,13 @@ def _gen_link(rng, prefix, budget, depth, max_depth, root, n_shared):
     link['feats'] = rng.randrange(len(FEATSETS))
     if rng.random() < 0.08:
       link['feats'] = 100 + rng.randrange(len(REJECTED_FEATSETS))
-  if kind == 'convert' and rng.random() < 0.2:
+  if kind == 'convert' and rng.random() < 0.25:
+    # convert() called directly with a conversion context object of some status
+    link['cctx'] = rng.choice(STATUSES)
+  if kind == 'convert' and not link.get('cctx') and rng.random() < 0.12:
+    # a leaf: a converted function that holds a user block ending in a one-branch return
+    link['blockfn'] = {'blk': rng.choice(STATUSES), 'early': rng.random() < 0.4}
+  if kind == 'convert' and not link.get('cctx') and not link.get('blockfn') and rng.random() < 0.2:
     # the wrapper object was created earlier, elsewhere (by the main thread,
     # inside a do_not_convert-like region), and is only *called* here
     link['premade'] = True
@@ -243,6 +263,14 @@ def make_plan(seed, index, tier, sub):
         break
       roots.append(_gen_link(rng, 't%d' % t, budget, 0, 4, True, n_shared))
     threads.append({'roots': roots})
+  # stack exhaustion: in single-thread runs, sometimes dive through nested regions until
+  # RecursionError (at several consecutive recursion limits, i.e. every stack alignment)
+  if nthreads == 1 and rng.random() < 0.35:
+    threads[0]['roots'].insert(rng.randrange(len(threads[0]['roots']) + 1),
+                               {'kind': 'deep', 'catch': True, 'fn': 'a', 'via': rng.choice(['dnc', 'with', 'to_graph', 'mixed']),
+                                'limits': rng.choice([6, 8, 10]),
+                                'spec': {'id': 't0.deep', 'children': [], 'raise_at': None, 'raise_kind': 0,
+                                         'local': None, 'first_in_block': None}})
   # thread generations: some threads are only created after an earlier one has
   # ended (thread identifiers get reused); the program may also forget the ended
   # thread's Thread object while a successor is inside a region
@@ -311,6 +339,7 @@ class ThreadState(object):
     self.captured = []      # context object current at the entry of each open node (parallel to expect)
     self.escaped = None     # (local function that escaped from a node, its spec)
     self.noncall = None     # context object seen by the last property-getter probe
+    self.blk = None         # bookkeeping for a running blockfn leaf
     self.blocks = {}        # status name -> this thread's ControlStatusCtx for user blocks in converted code
 
 
@@ -512,6 +541,29 @@ class Harness(object):
     if st is not None:
       st.noncall = self.cur_ctx(st)
 
+  def blk_probe(self, spec, where):
+    """Inside blockfn: 'in' = inside the user's block (its object is current),
+    'after' = after the block (the function's own status again)."""
+    st = self._st()
+    c = self.cur_ctx(st)
+    self.stats['block_probes'] = self.stats.get('block_probes', 0) + 1
+    blk_ctx = self.blocks.for_thread(st, spec['blk'])
+    if where == 'in':
+      if c is not blk_ctx:
+        self.viol('S2', 'blockfn %s: inside its `with` block the current context is not the block\'s object (%s)'
+                  % (spec['id'], _status_name(c)), sig='blockfn-in')
+      return
+    if c is blk_ctx:
+      self.viol('S1', 'blockfn %s: after leaving its `with` block the block\'s context (%s) is still current'
+                % (spec['id'], _status_name(c)), sig='blockfn-after-still-block')
+      return
+    info = getattr(st, 'blk', None)
+    gen = self._generated_caller()
+    if info is not None and info['pexp'] != 'DISABLED' and spec['ur'] and (gen or self.clean) \
+        and _status_name(c) != 'ENABLED':
+      self.viol('S3', 'blockfn %s: after its `with` block a user-requested converted function reports %s'
+                % (spec['id'], _status_name(c)), sig='blockfn-after-status')
+
   def local_probe(self, spec, tag):
     """Status seen inside a local function of a node.  Called directly it sees
     what its parent sees; run inside a disabled region it reports disabled
@@ -662,6 +714,19 @@ class Harness(object):
       return fn(spec)      # (plain kinds reach here only below a lambda node)
     if kind == 'convert':
       feats = _feats(malt, link['feats'])
+      if link.get('blockfn'):
+        bspec = dict(link['blockfn'], id=spec['id'], ur=link['ur'])
+        st.blk = {'link': link, 'pexp': st.pending[-1][1] if st.pending else None}
+        try:
+          return malt.convert(recursive=link['rec'], optional_features=feats,
+                              user_requested=link['ur'])(self.mod.blockfn)(bspec)
+        finally:
+          st.blk = None
+      if link.get('cctx'):
+        ctx = ag_ctx.ControlStatusCtx(getattr(ag_ctx.Status, link['cctx']))
+        st.pending[-1].append(ctx)
+        return malt.convert(recursive=link['rec'], optional_features=feats, user_requested=link['ur'],
+                            conversion_ctx=ctx)(fn)(spec)
       if link.get('premade') and not link.get('as_partial'):
         key = (link['fn'], link['rec'], link['feats'], link['ur'])
         w = self.premade.get(key)
@@ -686,6 +751,8 @@ class Harness(object):
       return malt.experimental.do_not_convert(target)(spec)
     if kind == 'dnc_gen':
       return self._run_generator(st, link)
+    if kind == 'deep':
+      return self._run_deep(st, link)
     if kind == 'unspec':
       return api.call_with_unspecified_conversion_status(fn)(spec)
     if kind == 'with':
@@ -736,6 +803,52 @@ class Harness(object):
       for _ in it:
         pass
     self._same_ctx(st, c0, link, 'finishing the generator (%s)' % fin)
+
+  def _run_deep(self, st, link):
+    """Recursion through nested regions until the interpreter's stack limit is hit;
+    the RecursionError is caught here, at the root, and the status must be the
+    very object it was - whatever the alignment of the limit with the frames."""
+    malt, ag_ctx = self.malt, self.ag_ctx
+    via = link['via']
+    c0 = self.cur_ctx(st)
+    tg = None
+    if via in ('to_graph', 'mixed'):
+      try:
+        tg = malt.to_graph(self.mod.deep_fn, recursive=False)
+      except Exception:   # noqa: BLE001
+        tg = None
+
+    def dive(k):
+      m = via if via != 'mixed' else ('dnc', 'with', 'to_graph')[k % 3]
+      if m == 'dnc':
+        return malt.experimental.do_not_convert(dive)(k + 1)
+      if m == 'with':
+        with ag_ctx.ControlStatusCtx(ag_ctx.Status.DISABLED):
+          return dive(k + 1)
+      if tg is not None:
+        return tg(dive, k + 1)
+      return dive(k + 1)
+    old = sys.getrecursionlimit()
+    depth = 0
+    f = sys._getframe()
+    while f is not None:
+      depth += 1
+      f = f.f_back
+    try:
+      with sched.atomic(self.sim):
+        for off in range(link.get('limits', 8)):
+          sys.setrecursionlimit(depth + 45 + off)
+          try:
+            dive(0)
+          except RecursionError:
+            self.stats['recursion_errors_caught'] = self.stats.get('recursion_errors_caught', 0) + 1
+          finally:
+            sys.setrecursionlimit(old)
+          self._same_ctx(st, c0, link, 'a RecursionError unwound %s regions (limit offset %d)' % (via, off))
+          if self.cur_ctx(st) is not c0:
+            break
+    finally:
+      sys.setrecursionlimit(old)
 
   def _same_ctx(self, st, c0, link, what):
     c = self.cur_ctx(st)
@@ -798,6 +911,16 @@ def expected_status(link, pexp, generated, H):
   inherit = 'DISABLED' if pexp == 'DISABLED' else None
   if kind in ('plain', 'plain_try', 'native'):
     return inherit
+  if kind == 'convert' and link.get('cctx'):
+    # the wrapper enters the given context object first: that status decides
+    cs = link['cctx']
+    if cs == 'DISABLED':
+      return 'DISABLED'
+    if cs == 'ENABLED':
+      return 'ENABLED'
+    if link['ur'] and (generated or H.clean):
+      return 'ENABLED'
+    return 'UNSPECIFIED'
   if kind == 'convert':
     if pexp == 'DISABLED':
       # convert() respects a disabled context: the function runs unconverted and
@@ -875,7 +998,7 @@ def execute(lane, plan, schedule, rdir, keep_log=False):
       for fp in plan['faults']:
         if fp['thread'] == tid:
           inj.arm(faults.Fault(fp['point'], fp['nth'], fp['when'], fp['exc'],
-                               ident=_thread.get_ident()))
+                               ident=faults._thread_key()))
       c_start = H.cur_ctx(st)
       for link in tplan['roots']:
         sim.point('op', 0, 0)
